@@ -8,7 +8,8 @@
    initialize (each master reply may be lost), one heartbeat round (with SyncPartitions), one partition-monitor
    round, a curator leader change, a curator node restart, raft calling FSM.Snapshot() on the leader (EvSnapTake: the
    state is serialised at that index) and, any number of events later, Snapshoter.Save() plus a replica that is not
-   ahead of the snapshot restoring it and replaying the log from the snapshot's index (EvSnapInstall).  [run evs] is the world after the events, [h_cids],
+   ahead of the snapshot restoring it and replaying the log from the snapshot's index (EvSnapInstall), and a heartbeat
+   round whose SyncPartitions proposal fails transiently (EvCHeartbeatSyncFail: nothing committed, cache untouched).  [run evs] is the world after the events, [h_cids],
    [h_tsids], [h_parts] are ghost lists of everything the master ever returned.
    [bounded evs]: fewer than 2^32 - 3 events, so that the uint32 counters do not wrap; it is the only hypothesis.
    Since fix ca0788b (SnapshotRestore decodes into a fresh State) the model's [restore_into] is plain replacement and
@@ -102,6 +103,18 @@ Definition demo_late_save : list event :=
 Example demo_late_save_ok :
   h_cids (run demo_late_save) = [1; 2; 3; 4] /\ h_parts (run demo_late_save) = [(1, 1); (2, 2); (3, 3)] /\
   w_snap (run demo_late_save) = Some (2%nat, replay [CRegCur; CRegCur]).
+Proof. vm_compute. repeat split; reflexivity. Qed.
+
+(* partition 2's reply is lost; the first heartbeat round that would sync fails transiently (cache and durable set
+   stay [1]); the next completed round recovers partition 2 *)
+Definition demo_sync_fail : list event :=
+  [EvCStart 0; EvCRegister 0 false; EvCCommitReg 0; EvCNewPart 0 false; EvCCommitPart 0;
+   EvCMonitor 0 true; EvCHeartbeatSyncFail 0].
+Example demo_sync_fail_ok :
+  sync_needed (run (firstn 6 demo_sync_fail)) 0 = true /\
+  c_parts (w_cur (run demo_sync_fail)) = [1] /\
+  n_cache (nth 0 (w_nodes (run demo_sync_fail)) node0) = [1] /\
+  c_parts (w_cur (run (demo_sync_fail ++ [EvCHeartbeat 0 false]))) = [1; 2].
 Proof. vm_compute. repeat split; reflexivity. Qed.
 
 (* on the F7 witnesses the repaired model hands out fresh ids / partitions, the unrepaired one duplicates *)
